@@ -100,6 +100,10 @@ theorem wf : K.WFS 4 where
     · simp at h
   exit_lbl := ⟨.plain, rfl⟩
   stop_ok := ⟨by decide, rfl⟩
+  arr_hi := (K.arrOK_of_none (fun _ => rfl)).arr_hi
+  arr_disj := (K.arrOK_of_none (fun _ => rfl)).arr_disj
+  arr_code := (K.arrOK_of_none (fun _ => rfl)).arr_code
+  loc_na := (K.arrOK_of_none (fun _ => rfl)).loc_na
 
 def σ : X.St :=
   { gvars := [("g", some 5)], arrays := #[], locals := [], io := Isa.IOSt.init [], calls := [], steps := 0, depth := 0 }
@@ -148,13 +152,28 @@ theorem rep : Rep K σ mem where
         rw [this] at h
         simp at h
   above := by
-    intro a ha
+    intro a ha _
     have : 100 ≤ a := by rw [S_zero] at ha; exact ha
     unfold mem
     rw [Mem.read_write_other _ _ _ _ (by omega), Mem.read_write_other _ _ _ _ (by omega)]
     exact Mem.read_zero _
   gvis := by intro n hn; simp [K] at hn
   depth := rfl
+  aptr := by
+    intro n r h
+    exfalso
+    unfold X.readName at h
+    have h1 : σ.locals.lookup n = none := rfl
+    rw [h1] at h
+    by_cases hn : n = "g"
+    · subst hn; simp [K, σ] at h
+    · have h2 : K.xc.genv.lookup n = none := by
+        simp only [K, List.lookup]
+        have : (n == "g") = false := by simpa using hn
+        rw [this]
+      rw [h2] at h
+      simp at h
+  acells := by intro id cells h; simp [σ] at h
 
 /-- `g := g + 1`. -/
 def stmt : X.Stmt := .assign "g" (.bin .plus (.name "g") (.num 1))
